@@ -129,19 +129,21 @@ class _Found(Exception):
     pass
 
 
-Body = Callable[[Subject, tuple, TV], List[Tuple[str, str, str, str]]]
+Body = Callable[[Subject, tuple, TV, Any], List[Tuple[str, str, str, str]]]
 
-_BODIES: Dict[str, Tuple[Body, Callable[[tuple], Optional[GenCfg]]]] = {}
+_BODIES: Dict[str, Tuple[Body, Callable[[tuple], Optional[GenCfg]], Optional[Callable]]] = {}
 
 
-def register(prop: str, body: Body, cfg_for: Optional[Callable[[tuple], Optional[GenCfg]]] = None) -> None:
-    _BODIES[prop] = (body, cfg_for or (lambda root: None))
+def register(prop: str, body: Body, cfg_for: Optional[Callable[[tuple], Optional[GenCfg]]] = None,
+             extra: Optional[Callable[[Subject, tuple], Any]] = None) -> None:
+    """body(subject, root, tv, extra) -> findings; extra(subject, root) -> strategy of JSON-serialisable extras."""
+    _BODIES[prop] = (body, cfg_for or (lambda root: None), extra)
 
 
 def _worker(args: Tuple[str, List[tuple], int, int, bool, int]) -> dict:
     prop, roots, n_cases, seed, do_shrink, max_new = args
     sub = subject()
-    body, cfg_for = _BODIES[prop]
+    body, cfg_for, extra_for = _BODIES[prop]
     ctx = Ctx(prop, "quick", seed)  # local collector (known-finding matching only)
     res: Dict[str, Any] = {
         "evaluations": 0, "hashes": set(), "unions": collections.Counter(), "samples": [],
@@ -151,11 +153,15 @@ def _worker(args: Tuple[str, List[tuple], int, int, bool, int]) -> dict:
         rname = root_name(root)
         cfg = cfg_for(root)
         strat = tvgen.value_strategy(sub.objects, root, cfg)
+        if extra_for is not None:
+            strat = hypothesis.strategies.tuples(strat, extra_for(sub, root))
+        else:
+            strat = hypothesis.strategies.tuples(strat, hypothesis.strategies.none())
         reported: Dict[tuple, Any] = {}
         state = {"n": 0}
 
-        def run_case(tv: TV, optset: int, count: bool = True) -> List[tuple]:
-            fs = body(sub, root, tv)
+        def run_case(tv: TV, optset: int, extra: Any, count: bool = True) -> List[tuple]:
+            fs = body(sub, root, tv, extra)
             if count:
                 state["n"] += 1
                 res["evaluations"] += 1
@@ -194,8 +200,8 @@ def _worker(args: Tuple[str, List[tuple], int, int, bool, int]) -> dict:
             last: List[Any] = [None]
 
             def prop_body(x):
-                tv, optset = x
-                fs = run_case(tv, optset)
+                (tv, optset), extra = x
+                fs = run_case(tv, optset, extra)
                 for f in fs:
                     sig = (f[0], f[1], f[2])
                     if sig in reported:
@@ -207,7 +213,7 @@ def _worker(args: Tuple[str, List[tuple], int, int, bool, int]) -> dict:
                     if target[0] is None:
                         target[0] = sig
                     if sig == target[0]:
-                        last[0] = (tv, f)
+                        last[0] = (tv, f, extra)
                         raise _Found()
 
             phases = [Phase.generate] + ([Phase.shrink] if do_shrink else [])
@@ -226,19 +232,19 @@ def _worker(args: Tuple[str, List[tuple], int, int, bool, int]) -> dict:
                 raise HarnessError(f"flaky case at root {rname}: {e}")
             if target[0] is None:
                 break
-            tv, f = last[0]
+            tv, f, extra = last[0]
             sig = target[0]
 
             def still(cand: TV) -> bool:
-                return any((g[0], g[1], g[2]) == sig for g in body(sub, root, cand))
+                return any((g[0], g[1], g[2]) == sig for g in body(sub, root, cand, extra))
 
             tv_min = minimize(tv, sub.objects, still)
-            fmin = [g for g in body(sub, root, tv_min) if (g[0], g[1], g[2]) == sig]
+            fmin = [g for g in body(sub, root, tv_min, extra) if (g[0], g[1], g[2]) == sig]
             detail = fmin[0][3] if fmin else f[3]
             reported[sig] = True
             ctx.violations[sig] = {
                 "signature": list(sig), "detail": detail, "count": 1,
-                "case": {"root": list(root), "json": erase(tv_min), "tv": to_json(tv_min)},
+                "case": {"root": list(root), "json": erase(tv_min), "tv": to_json(tv_min), "extra": extra},
             }
         res["per_root"][rname] = state["n"]
     res["violations"] = list(ctx.violations.values())
@@ -252,7 +258,7 @@ def _worker(args: Tuple[str, List[tuple], int, int, bool, int]) -> dict:
 def run_regress(ctx: Ctx, prop: str) -> int:
     """The committed replay tier: saved cases re-executed without Hypothesis."""
     sub = subject()
-    body, _ = _BODIES[prop]
+    body = _BODIES[prop][0]
     d = os.path.join(runner.VERIF, "regress", prop)
     n = 0
     if not os.path.isdir(d):
@@ -266,8 +272,9 @@ def run_regress(ctx: Ctx, prop: str) -> int:
         tv = tvgen.from_json(case["tv"])
         root = tuple(case["root"])
         n += 1
-        for g in body(sub, root, tv):
-            ctx.finding((g[0], g[1], g[2]), g[3], {"root": list(root), "json": erase(tv), "tv": case["tv"], "regress": name})
+        for g in body(sub, root, tv, case.get("extra")):
+            ctx.finding((g[0], g[1], g[2]), g[3], {"root": list(root), "json": erase(tv), "tv": case["tv"],
+                                                     "extra": case.get("extra"), "regress": name})
     return n
 
 
@@ -324,13 +331,13 @@ def run_value_property(ctx: Ctx, prop: str, n_quick: int, n_thorough: int, rule:
 def replay_value_case(ctx: Ctx, prop: str, path: str) -> int:
     """Re-execute a replay file without Hypothesis."""
     sub = subject()
-    body, _ = _BODIES[prop]
+    body = _BODIES[prop][0]
     with open(path) as f:
         rp = json.load(f)
     case = rp["case"]
     tv = tvgen.from_json(case["tv"])
     root = tuple(case["root"])
-    fs = body(sub, root, tv)
+    fs = body(sub, root, tv, case.get("extra"))
     sig = tuple(rp["signature"])
     hit = [g for g in fs if (g[0], g[1], g[2]) == sig]
     if hit:
